@@ -205,6 +205,12 @@ def main(tier, seed, replay=None):
             else:
                 c = EC.base_case(rng)
             opts = rng.choice([{}, {}, {"abort_on_first": True}, {"allow_warnings": True}])
+            if rng.random() < 0.2:
+                # every shape of waivable severity: with allow_warnings the report conforms and still has results
+                for sh_ in c["shapes"]:
+                    sh_["sev"] = rng.choice([SH.Warning, SH.Info])
+                c["sg"] = S.shapes_to_rdf(c["shapes"])
+                opts = {"allow_warnings": True}
             base = S.run_validate(c["data"], c["sg"], **opts)
             if base[0] != "ok":
                 continue
@@ -248,6 +254,10 @@ def main(tier, seed, replay=None):
                     _, da, db = graph_diff(to_isomorphic(g0), to_isomorphic(g1))
                     o1 = o1 + ({"only_in_api_graph": sorted(" ".join(x.n3() for x in t) for t in da)[:400], "only_in_parsed": sorted(" ".join(x.n3() for x in t) for t in db)[:400]},)
                     diffs.append((c, "the report parsed back from %s differs from the report graph of the API" % fmt, base, o1, opts))
+            stats["conforming_with_results"] = stats.get("conforming_with_results", 0) + (1 if base[1] and base[2] else 0)
+            v_, n_ = parse_human(base[3])
+            if v_ != base[1] or n_ != len(base[2]):
+                diffs.append((c, "the report text states conforms=%s with %d results; the report graph has conforms=%s with %d results" % (v_, n_, base[1], len(base[2])), base, None, opts))
             if len(cli_jobs) < n_cli * 7 and (base[2] or rng.random() < 0.3):
                 dp, sp = os.path.join(d, "d%d.nt" % j), os.path.join(d, "s%d.nt" % j)
                 c["data"].serialize(destination=dp, format="nt")
